@@ -23,7 +23,10 @@ calls `client.PublishDiagnostics` unconditionally at the end of `publishDiagnost
 the `go` statements in DidOpen/DidChange.  Steps are cut at every access to state that another
 goroutine can see:
 
-* `openDoc` / `change` / `close` — one handler run.  Its only access to state that a *task* reads
+* `openDoc` / `change` / `close` — one handler run.  (DidOpen and didChange also call
+  `workspace.UpdateFile` and `loader.InvalidateFile` before `nextDocVersion` — DidOpen since
+  fix-didopen-workspace.diff; that is `diag`'s environment, see "Domain" below, not the publish
+  protocol.)  Its only access to state that a *task* reads
   is the single critical section of `docVerMu` inside `nextDocVersion` / `dropDocVersion`
   (tasks never read `Server.documents`), and the `go` statement comes after it in program order,
   so the new task captures exactly the version stored.  Hence the whole handler is one atomic
